@@ -195,7 +195,29 @@ KW_POSITIONS = {
     "ref_table": ("CREATE TABLE t (a int REFERENCES {w} (k), b int);", lambda r, w: r[0]["columns"][0]["references"]["table"] == w and [c["name"] for c in r[0]["columns"]] == ["a", "b"]),
     "type": ("CREATE TYPE {w} AS ENUM ('a');", lambda r, w: r[0]["type_name"] == w and r[0]["properties"]["values"] == ["'a'"]),
     "alter_target": ("CREATE TABLE {w} (a int);\nALTER TABLE {w} ADD b int;", lambda r, w: r[0]["table_name"] == w and [c["name"] for c in r[0]["columns"]] == ["a", "b"]),
+    # a keyword-shaped *column* name used again inside a key / reference / index column list (nested parentheses)
+    "col_in_pk_list": ("CREATE TABLE t (c0 int, {w} int, c2 int, PRIMARY KEY ({w}, c0));",
+                       lambda r, w: r[0]["primary_key"] == [w, "c0"] and [c["name"] for c in r[0]["columns"]] == ["c0", w, "c2"] and len(r) == 1),
+    "col_in_named_pk_list": ("CREATE TABLE t (c0 int, {w} int, c2 int, CONSTRAINT pk_t PRIMARY KEY (c0, {w}));",
+                             lambda r, w: r[0]["primary_key"] == ["c0", w] and r[0]["constraints"]["primary_keys"][0]["columns"] == ["c0", w] and [c["name"] for c in r[0]["columns"]] == ["c0", w, "c2"]),
+    "col_in_unique_list": ("CREATE TABLE t (c0 int, {w} int, c2 int, CONSTRAINT uq_t UNIQUE ({w}, c2));",
+                           lambda r, w: r[0]["constraints"]["uniques"][0]["columns"] == [w, "c2"] and [c["name"] for c in r[0]["columns"]] == ["c0", w, "c2"]),
+    "col_in_fk_list": ("CREATE TABLE t (c0 int, {w} int, c2 int, FOREIGN KEY ({w}) REFERENCES other (k));",
+                       lambda r, w: r[0]["columns"][1]["name"] == w and r[0]["columns"][1]["references"]["table"] == "other" and len(r[0]["columns"]) == 3),
+    "ref_column": ("CREATE TABLE t (c0 int REFERENCES other ({w}), c2 int);",
+                   lambda r, w: (r[0]["columns"][0]["references"].get("column") == w or r[0]["columns"][0]["references"].get("columns") == [w]) and [c["name"] for c in r[0]["columns"]] == ["c0", "c2"]),
+    "col_in_index_list": ("CREATE TABLE t (c0 int, {w} int);\nCREATE INDEX ix_t ON t ({w}, c0);",
+                          lambda r, w: r[0]["index"][0]["columns"] == [w, "c0"] and [c["name"] for c in r[0]["columns"]] == ["c0", w] and len(r) == 1),
+    "col_in_alter_pk_list": ("CREATE TABLE t (c0 int, {w} int);\nALTER TABLE t ADD CONSTRAINT pk_a PRIMARY KEY ({w}, c0);",
+                             lambda r, w: r[0]["alter"]["primary_keys"][0]["columns"] == [w, "c0"] and [c["name"] for c in r[0]["columns"]] == ["c0", w] and len(r) == 1),
+    "col_in_alter_unique_list": ("CREATE TABLE t (c0 int, {w} int);\nALTER TABLE t ADD CONSTRAINT uq_a UNIQUE ({w}, c0);",
+                                 lambda r, w: r[0]["alter"]["uniques"][0]["columns"] == [w, "c0"] and [c["name"] for c in r[0]["columns"]] == ["c0", w] and len(r) == 1),
+    "col_in_alter_drop": ("CREATE TABLE t (c0 int, {w} int);\nALTER TABLE t DROP COLUMN {w};",
+                          lambda r, w: [c["name"] for c in r[0]["columns"]] == ["c0"] and len(r) == 1),
 }
+# positions that re-use a *column* name: the 13 words the property excludes as column names are not placed there
+COLUMN_REUSE_POSITIONS = {"col_in_pk_list", "col_in_named_pk_list", "col_in_unique_list", "col_in_fk_list", "ref_column", "col_in_index_list",
+                          "col_in_alter_pk_list", "col_in_alter_unique_list", "col_in_alter_drop"}
 
 
 def spellings(w):
@@ -290,6 +312,8 @@ def run_shard(ctx):
     for w in kws:
         for sp in spellings(w):
             for pos in KW_POSITIONS:
+                if pos in COLUMN_REUSE_POSITIONS and w in EXCLUDED_COLUMN_WORDS:
+                    continue
                 i += 1
                 if ctx.mine(i):
                     check_case(ctx, {"gen": "kw_position", "word": sp, "position": pos})
